@@ -28,7 +28,7 @@ if [ "$MODE" = build ]; then
     if ! git apply "$D/patch.diff"; then echo "patch_applies=no" >> "$OUT"; cat "$OUT"; continue; fi
     echo "patch_applies=yes" >> "$OUT"
     git diff --name-only | xargs touch; touch radix-engine/src/lib.rs; put_demos "$@"
-    cargo test --no-run --offline --message-format=json -p radix-engine -p radix-engine-tests --lib --test system_folder --test kernel_folder 2>/dev/null | jq -r 'select(.executable != null and .profile.test == true) | "\(.target.name) \(.executable)"' > "$BINS/$N.bins"
+    cargo test --no-run --offline --message-format=json -p radix-engine -p radix-engine-tests --lib --test system_folder --test kernel_folder ${EXTRA_TESTS:-} 2>/dev/null | jq -r 'select(.executable != null and .profile.test == true) | "\(.target.name) \(.executable)"' > "$BINS/$N.bins"
     mkdir -p "$BINS/$N"
     while read -r T EXE; do ln -f "$EXE" "$BINS/$N/$T" 2>/dev/null || cp "$EXE" "$BINS/$N/$T"; done < "$BINS/$N.bins"
     ( cd radix-engine-tests && "$BINS/$N/system_folder" seeded_demo_$S > "$BINS/$N.demo.log" 2>&1 ); RC=$?
@@ -45,6 +45,10 @@ else
     echo "existing system_folder with change (saved binary): exit=$RC $(grep -E '^test result' "$BINS/$N.system.log" | tail -1)" | tee -a "$OUT"
     ( cd "$WT/radix-engine-tests" && "$BINS/$N/kernel_folder" > "$BINS/$N.kernel.log" 2>&1 ); RC=$?
     echo "existing kernel_folder with change (saved binary): exit=$RC $(grep -E '^test result' "$BINS/$N.kernel.log" | tail -1)" | tee -a "$OUT"
+    if [ -x "$BINS/$N/blueprints_folder" ]; then
+      ( cd "$WT/radix-engine-tests" && "$BINS/$N/blueprints_folder" > "$BINS/$N.blueprints.log" 2>&1 ); RC=$?
+      echo "existing blueprints_folder with change (saved binary): exit=$RC $(grep -E '^test result' "$BINS/$N.blueprints.log" | tail -1)" | tee -a "$OUT"
+    fi
     ( cd "$WT/radix-engine" && "$BINS/$N/radix_engine" > "$BINS/$N.lib.log" 2>&1 ); RC=$?
     echo "existing radix-engine unit tests with change (saved binary): exit=$RC $(grep -E '^test result' "$BINS/$N.lib.log" | tail -1)" | tee -a "$OUT"
   done
